@@ -179,7 +179,7 @@ func c19Run(c *core.Ctx) *core.Result {
 	var fs fsutil.FS
 	view := src
 	if synthetic {
-		fs = newSynthFS(src)
+		fs = newSynthFSReaders(src, R)
 	} else {
 		sd := filepath.Join(c.Dir, "src")
 		os.Mkdir(sd, 0755)
